@@ -47,7 +47,7 @@ typename COW::shared_handle snapshot(COW* c, int form)
 {
     using namespace std::chrono_literals;
 #ifdef MODE_C14
-    noblock_begin("cow_guarded read acquisition", 24);
+    noblock_begin("cow_guarded read acquisition", 60);
 #endif
     typename COW::shared_handle h;
     if constexpr (std::is_same_v<COW, COW_T>) {
